@@ -25,6 +25,7 @@ import (
 	"bufio"
 	"fmt"
 	"io"
+	"math"
 	"regexp"
 	"strconv"
 
@@ -34,6 +35,8 @@ import (
 // ReadNCBI decodes an NCBI-format substitution matrix from the given reader.
 func ReadNCBI(r io.Reader) (align.SubstitutionMatrix, error) {
 	sc := bufio.NewScanner(r)
+	// Lines (e.g. comments) may be longer than the scanner's default limit of 64 KiB.
+	sc.Buffer(nil, math.MaxInt)
 	re := regexp.MustCompile(`\S+`)
 	m := align.SubstitutionMatrix{}
 	var chars []byte
